@@ -382,6 +382,30 @@ func checkC08(c *Check) {
 						}
 					}
 				}
+				// the AllowUnmatchedRequests default is applied only there: a return of the shared allow that is justified by
+				// that flag alone lies behind the exhaustion of the chain list (a shortcut in front of the loop, however the
+				// request is pre-classified, hands requests of catch-all chains to the default)
+				inTail := map[*ssa.Return]bool{}
+				for _, r := range rets {
+					inTail[r] = true
+				}
+				for i, r := range returnsOf(fn) {
+					if inTail[r] || len(r.Results) == 0 {
+						continue
+					}
+					for _, a := range phiAlternatives(fn, r.Results[0], r) {
+						afs := unionFacts(FactsOf(fn).At(r), a.Facts)
+						for _, lv := range Leaves(a.V, leafOpts{}) {
+							if !isLoadOfGlobal(resolveCell(stripConv(lv)), allowG) {
+								continue
+							}
+							if ok, why := allowReturnJustified(P, R, fn, afs); ok && strings.Contains(why, "AllowUnmatchedRequests") {
+								c.Fail("C08.R4", fmt.Sprintf("unmatched-default-before-exhaustion/return#%d", i+1), P.Pos(instrPos(r)),
+									"the AllowUnmatchedRequests default is applied at a return that is not behind the exhaustion of the chain list: a request that a (catch-all) chain would judge is allowed without its filters")
+							}
+						}
+					}
+				}
 				c.Obl(okDef && sawDeny && sawAllow, "C08.R4", "default-deny", P.Pos(fn.Pos()), "no chain matched ⇒ PermissionDenied unless AllowUnmatchedRequests",
 					"the fall-through after the chain loop is not {allow under AllowUnmatchedRequests, deny(PermissionDenied) otherwise}")
 				// deny closure really uses its code
@@ -787,7 +811,7 @@ func responseFreshPerCheck(c *Check, rule string, R *Roles) {
 // into an element of such a list, or hands the list to a function that edits its argument in place
 // (slices.DeleteFunc / Delete / Insert / Compact / Sort / Reverse, sort.*): what the request path evaluates is
 // the configuration as it was loaded.
-func configFieldsNotWritten(c *Check, rule, key string, ids map[string]bool, what string) {
+func configFieldsNotWritten(c *Check, rule, key string, ids map[string]bool, what string, allowed ...*ssa.Function) {
 	P := c.P
 	n := 0
 	isListLoad := func(v ssa.Value) (string, bool) {
@@ -803,6 +827,15 @@ func configFieldsNotWritten(c *Check, rule, key string, ids map[string]bool, wha
 	}
 	for _, f := range P.Funcs {
 		if !isOwnPath(pkgPathOf(f)) || strings.HasPrefix(pkgPathOf(f), modPath+"/config/gen/") {
+			continue
+		}
+		skip := false
+		for _, a := range allowed {
+			if a == f {
+				skip = true
+			}
+		}
+		if skip {
 			continue
 		}
 		for _, b := range f.Blocks {
